@@ -2,8 +2,10 @@
 package main
 
 import (
+	_ "verif/mc/callmc"
 	"verif/mc/core"
 	_ "verif/mc/props"
+	_ "verif/mc/vermc"
 )
 
 func main() { core.Main() }
